@@ -161,6 +161,7 @@ def gen_case(ctx, g, focus=None):
         qa['top_spelling'] = r.choice(['top', 'limit'])
     elif shape < 0.8:
         numcol = na
+        lacking = False
         pool = NUM if r.random() < 0.7 else ['0', '-1', '-2', '-5', '0', '-3']      # zero as a running extreme / sum among negatives
         A = [row + [r.choice(pool)] for row in A]
         if A and r.random() < 0.08:
@@ -172,6 +173,7 @@ def gen_case(ctx, g, focus=None):
             # one in rbql-py - NumHandler's string detection): a missing field is not a number either (Number(null) is 0 in JavaScript)
             k = r.randrange(1, len(A))
             A[k] = A[k][:numcol]
+            lacking = True
         items = []
         for _ in range(r.randint(1, 3)):
             if r.random() < 0.75:
@@ -187,6 +189,10 @@ def gen_case(ctx, g, focus=None):
         qa['join'] = None
         B = None
         qa['where'] = None if r.random() < 0.7 else ('ne', ('fld', 'a', 0), ('lit', 'a'))
+        if lacking:
+            # (no WHERE then: the FIRST value a column's NumHandler sees must have the field, and with a WHERE the first passing record
+            #  could be the one that lacks it - rbql-py would then name the next record; seed-3 rehearsal false alarm, DESIGN 11.2)
+            qa['where'] = None
         if r.random() < 0.75:
             qa['group'] = [('fld', 'a', 0)] if r.random() < 0.7 else [('fld', 'a', 0), ('len', ('fld', 'a', 0))]
         qa['top'] = r.choice([None, None, 1])
